@@ -1,3 +1,77 @@
 import Ptk.Proto
--- stub: the C10 model driver has not been written yet
-def main : IO Unit := Ptk.Proto.run fun _ => "bad-op"
+import Ptk.Gen.C10Display
+import Ptk.Model.C10
+open Ptk Ptk.Py Ptk.Proto Ptk.C10
+
+/-- style environment sent by the harness (parameters of the model that belong to C19's domain):
+    style string ↦ (attrs id, style_string_has_style), attrs id ↦ escape code -/
+structure Env where
+  styles : List (Text × Nat × Bool) := []
+  sgrs : List (Nat × Text) := []
+
+def Env.attrsOf (e : Env) (s : Text) : Nat :=
+  match e.styles.find? (·.1 = s) with
+  | some (_, a, _) => a
+  | none => 999999
+def Env.hasStyle (e : Env) (s : Text) : Bool :=
+  match e.styles.find? (·.1 = s) with
+  | some (_, _, h) => h
+  | none => false
+def Env.sgr (e : Env) (a : Nat) : Text :=
+  match e.sgrs.find? (·.1 = a) with
+  | some (_, t) => t
+  | none => "<?sgr>".toList
+
+/-! token stream parser -/
+abbrev P := StateT (List String) Option
+
+def tok : P String := fun s => match s with
+  | [] => none
+  | t :: ts => some (t, ts)
+def pNat : P Nat := do let t ← tok; (decNat t : Option Nat)
+def pInt : P Int := do let t ← tok; (decInt t : Option Int)
+def pBool : P Bool := do let t ← tok; (decBool t : Option Bool)
+def pStr : P Text := do let t ← tok; (decStr t : Option Text)
+def pMany {α} (p : P α) : Nat → P (List α)
+  | 0 => pure []
+  | n + 1 => do let a ← p; let r ← pMany p n; pure (a :: r)
+def pList {α} (p : P α) : P (List α) := do let n ← pNat; pMany p n
+
+def pFrag : P (Text × Text) := do let s ← pStr; let t ← pStr; pure (s, t)
+
+def M := Gen.C10.displayMappings
+def WC := Gen.C10.wcwidth
+
+def encCell (c : Cell) : String := s!"{encStr c.char} {encStr c.style} {c.width}"
+
+def encSegs (l : List Seg) : String :=
+  let tag : Origin → String
+    | .gen => "g" | .content => "c" | .zwe => "z"
+  encList (fun (o, t) => tag o ++ " " ++ encStr t) l
+
+def handle (e : Env) : String → P (Env × String)
+  | "env" => do
+    let st ← pList (do let s ← pStr; let a ← pNat; let h ← pBool; pure (s, a, h))
+    let sg ← pList (do let a ← pNat; let t ← pStr; pure (a, t))
+    pure ({ styles := st, sgrs := sg }, "ok")
+  | "cell" => do
+    let s ← pStr; let st ← pStr
+    pure (e, encCell (mkCell M WC s st))
+  | "write" => do
+    let s ← pStr
+    pure (e, encStr (safeWrite s))
+  | "print" => do
+    let frs ← pList pFrag
+    let segs := printFrags e.attrsOf e.sgr Gen.C10.resetAttrs Gen.C10.enableAutowrap frs
+    pure (e, encStr (segsText segs) ++ " " ++ encSegs segs)
+  | _ => failure
+
+def stepLine (e : Env) (toks : List String) : Env × String :=
+  match toks with
+  | [] => (e, "bad-op")
+  | op :: rest =>
+    match (handle e op).run rest with
+    | some ((e', r), []) => (e', r)
+    | _ => (e, "bad-op")
+
+def main : IO Unit := runS stepLine {}
